@@ -21,6 +21,9 @@ type flight struct {
 	setup func(scfg *tls.Config, ccfg *tls.Config, hk *connHooks) // extra server behaviour
 	// warm, if set, runs an unmutated first connection (fills the session cache)
 	warm bool
+	// inner: the Certificate message is mutated BEFORE the standing transformation compresses it,
+	// so the client sees a valid CompressedCertificate around a mutated inner message
+	inner bool
 }
 
 func c33Clients() []gridClient {
@@ -43,6 +46,7 @@ func c33Flights() []flight {
 		}},
 		{name: "tls13-resumed", vers: tls.VersionTLS13, warm: true},
 		{name: "tls13-compressed-cert", vers: tls.VersionTLS13, setup: func(s, c *tls.Config, hk *connHooks) { hk.compressCert = true }},
+		{name: "tls13-compressed-cert-inner", vers: tls.VersionTLS13, inner: true, setup: func(s, c *tls.Config, hk *connHooks) { hk.compressCert = true }},
 		{name: "tls13-alps", vers: tls.VersionTLS13, setup: func(s, c *tls.Config, hk *connHooks) {
 			s.NextProtos = []string{"h2"}
 			s.ClientAuth = tls.RequestClientCert
@@ -72,6 +76,7 @@ const (
 	mutDuplicate
 	mutDrop
 	mutExtra
+	mutCertShape // Certificate only: well-formed messages with degenerate certificate lists
 	mutKinds
 )
 
@@ -122,6 +127,19 @@ func runFlight(g gridClient, f flight, mutate func(n int, t uint8, d []byte) []b
 		_ = w
 	}
 	hk.Out = func(n int, t uint8, d []byte) []byte {
+		if f.inner && t == 11 {
+			// mutate the plaintext Certificate, then compress whatever came out
+			if record != nil {
+				*record = append(*record, msgInfo{d[0], len(d)})
+			}
+			if mutate != nil {
+				d = mutate(n, d[0], d)
+			}
+			if len(d) < 4 || d[0] != 11 {
+				return d
+			}
+			return baseTransform(hk, 11, d)
+		}
 		d = baseTransform(hk, t, d)
 		if record != nil {
 			*record = append(*record, msgInfo{d[0], len(d)})
@@ -263,6 +281,20 @@ func c33Mutations(thorough bool) *explore.Scenario {
 					}
 					return d
 				}
+			case mutCertShape:
+				if m.typ != 11 {
+					r.Obs = "n/a"
+					return
+				}
+				v := x.Choose("val", 4)
+				desc = "certificate-list-" + []string{"empty", "one-empty-entry", "one-1-byte-entry", "first-then-empty-entry"}[v]
+				tls13 := f.vers == tls.VersionTLS13
+				mutate = func(n int, t uint8, d []byte) []byte {
+					if n != target || len(d) < 8 || d[0] != 11 {
+						return d
+					}
+					return hsMsg(11, degenerateCertBody(d[4:], tls13, v))
+				}
 			case mutExtra:
 				et := extraTypes[x.Choose("val", len(extraTypes))]
 				before := x.Choose("pos", 2) == 1
@@ -297,6 +329,46 @@ func c33Mutations(thorough bool) *explore.Scenario {
 			return
 		},
 	}
+}
+
+// degenerateCertBody builds a syntactically valid Certificate body with a degenerate list.
+func degenerateCertBody(orig []byte, tls13 bool, v int) []byte {
+	u24 := func(n int) []byte { return []byte{byte(n >> 16), byte(n >> 8), byte(n)} }
+	entry := func(cert []byte) []byte {
+		e := append(u24(len(cert)), cert...)
+		if tls13 {
+			e = append(e, 0, 0) // no per-certificate extensions
+		}
+		return e
+	}
+	// the first certificate of the original message
+	var first []byte
+	off := 0
+	if tls13 && len(orig) > 0 {
+		off = 1 + int(orig[0])
+	}
+	if len(orig) >= off+6 {
+		l := int(orig[off+3])<<16 | int(orig[off+4])<<8 | int(orig[off+5])
+		if off+6+l <= len(orig) {
+			first = orig[off+6 : off+6+l]
+		}
+	}
+	var list []byte
+	switch v {
+	case 0:
+	case 1:
+		list = entry(nil)
+	case 2:
+		list = entry([]byte{0x30})
+	default:
+		list = append(entry(first), entry(nil)...)
+	}
+	var body []byte
+	if tls13 {
+		body = append(body, 0) // empty certificate_request_context
+	}
+	body = append(body, u24(len(list))...)
+	return append(body, list...)
 }
 
 func firstLineOf(s string) string {
@@ -433,7 +505,7 @@ func c33Scenarios(thorough bool) []*explore.Scenario {
 func init() {
 	register(&Prop{ID: "C33", Level: "exploration", Variant: "A", Scenarios: c33Scenarios,
 		Run: func(c *explore.Check, thorough bool) {
-			c.Rule = "6 clients (Chrome_Auto, Chrome_112_PSK_Shuf, Firefox_120, iOS_14, Chrome_58, Golang) x 7 server flights (TLS 1.3 full / HRR+cookie / resumed / CompressedCertificate / ALPS+client auth, TLS 1.2 full / resumed; NewSessionTicket messages included) x every server handshake message x mutation {every byte position (all for messages <= 300 B, else head/stride/tail) x values {00, ff, ^01 (+7f, 80 thorough)}, body truncated to every length, header length {0,-1,+1,max}, duplicated, dropped, extra message of type 8/25/4/24/254/2/11 before/after}, applied before encryption by the verif hook; raw layer: each of the first five record-header bytes x 256 values, records of 0/16385/18433 B, 40 empty records; allocation measured under CompressedCertificate / Certificate length lies. Oracle: Handshake and the following Read return (watchdog 60 s vs. milliseconds), no panic, bounded allocation. distinct = case"
+			c.Rule = "6 clients (Chrome_Auto, Chrome_112_PSK_Shuf, Firefox_120, iOS_14, Chrome_58, Golang) x 8 server flights (TLS 1.3 full / HRR+cookie / resumed / CompressedCertificate mutated after and before compression / ALPS+client auth, TLS 1.2 full / resumed; NewSessionTicket messages included) x every server handshake message x mutation {every byte position (all for messages <= 300 B, else head/stride/tail) x values {00, ff, ^01 (+7f, 80 thorough)}, body truncated to every length, header length {0,-1,+1,max}, duplicated, dropped, extra message of type 8/25/4/24/254/2/11 before/after, Certificate replaced by a well-formed message with a degenerate list (empty, one empty entry, one 1-byte entry, good + empty entry)}, applied before encryption by the verif hook; raw layer: each of the first five record-header bytes x 256 values, records of 0/16385/18433 B, 40 empty records; allocation measured under CompressedCertificate / Certificate length lies. Oracle: Handshake and the following Read return (watchdog 60 s vs. milliseconds), no panic, bounded allocation. distinct = case"
 			c.Assumptions = []string{"small-scope: one mutation per execution from a fixed value menu; a crash needing several coordinated edits is outside the explored space", "'returns within the deadline' is decided as 'returns once the transport reports that no more bytes will come'"}
 			runAll(c, c33Scenarios(thorough), 0)
 			c.Gate(c.Total.Counters["outcome_error"] > 10000, "non-vacuity: %d rejected mutations", c.Total.Counters["outcome_error"])
